@@ -37,6 +37,9 @@ type Options struct {
 	StrictWrongKind bool
 	// Typed: absent values are legitimate (type-level view of a struct).
 	Typed bool
+	// NoWrongKindProbes skips the kind-inappropriate accessor probes (C01 decides those; the
+	// schema properties compare what the views contain).
+	NoWrongKindProbes bool
 	// KeyNode builds the foreign key node handed to LookupByNode (defaults to a basicnode string).
 	MaxIssues int
 }
@@ -120,7 +123,7 @@ func (r *reader) read(n datamodel.Node, path string) model.Val {
 	if isNull != (kind == datamodel.Kind_Null) {
 		r.issue(path, "null-vs-kind", "IsNull=%v but Kind=%v", isNull, kind)
 	}
-	if !r.opt.Light {
+	if !r.opt.Light && !r.opt.NoWrongKindProbes {
 		r.probeWrongKind(n, kind, path)
 	}
 	switch kind {
@@ -354,11 +357,13 @@ func (r *reader) readList(n datamodel.Node, path string, length int64) model.Val
 		r.mustMiss(path, "LookupBySegment(\"x\")", func() (datamodel.Node, error) {
 			return n.LookupBySegment(datamodel.PathSegmentOfString("x"))
 		})
-		r.mustMiss(path, "LookupByString on list", func() (datamodel.Node, error) { return n.LookupByString("0") })
-		var mi datamodel.MapIterator
-		r.call(path, "MapIterator on list", func() { mi = n.MapIterator() })
-		if mi != nil {
-			r.issue(path, "wrong-iterator", "MapIterator() on a list is not nil")
+		if !r.opt.NoWrongKindProbes {
+			r.mustMiss(path, "LookupByString on list", func() (datamodel.Node, error) { return n.LookupByString("0") })
+			var mi datamodel.MapIterator
+			r.call(path, "MapIterator on list", func() { mi = n.MapIterator() })
+			if mi != nil {
+				r.issue(path, "wrong-iterator", "MapIterator() on a list is not nil")
+			}
 		}
 	}
 	return out
@@ -467,10 +472,12 @@ func (r *reader) readMap(n datamodel.Node, path string, length int64) model.Val 
 		if !r.opt.Typed {
 			r.mustMiss(path, "LookupByIndex on map", func() (datamodel.Node, error) { return n.LookupByIndex(0) })
 		}
-		var li datamodel.ListIterator
-		r.call(path, "ListIterator on map", func() { li = n.ListIterator() })
-		if li != nil {
-			r.issue(path, "wrong-iterator", "ListIterator() on a map is not nil")
+		if !r.opt.NoWrongKindProbes {
+			var li datamodel.ListIterator
+			r.call(path, "ListIterator on map", func() { li = n.ListIterator() })
+			if li != nil {
+				r.issue(path, "wrong-iterator", "ListIterator() on a map is not nil")
+			}
 		}
 	}
 	return out
@@ -501,7 +508,7 @@ func (r *reader) sameChild(path, what string, want model.Val, f func() (datamode
 		r.issue(path, "lookup-vs-iter", "%s failed for an entry the iterator yielded: %v", what, err)
 		return
 	}
-	sub := &reader{opt: Options{Light: true, Typed: r.opt.Typed, MaxIssues: 2}}
+	sub := &reader{opt: Options{Light: true, Typed: r.opt.Typed, NoWrongKindProbes: r.opt.NoWrongKindProbes, MaxIssues: 2}}
 	gv := sub.read(got, path)
 	r.Events += sub.Events
 	if !model.Equal(gv, want) {
@@ -526,6 +533,9 @@ func (r *reader) mustMiss(path, what string, f func() (datamodel.Node, error)) {
 		return
 	}
 	if err == nil {
+		if r.opt.Typed && got != nil && got.IsAbsent() {
+			return // typed views answer "not there" with the Absent node
+		}
 		r.issue(path, "lookup-miss-no-error", "%s returned no error (node nil=%v)", what, got == nil)
 	}
 }
